@@ -46,10 +46,21 @@ def fmt(c, form):
         return '%d:%02d.%02d' % (m, s // 100, s % 100)
     if form == 'hand':
         return '%d.%d' % (c // 100, (c % 100) // 10) if c % 10 == 0 else None
+    if form == 'comma':           # decimal comma, as typed on many keyboards: optional (may be refused)
+        return '%d,%02d' % (c // 100, c % 100)
+    if form == 'hmscomma':
+        if c < 6000:
+            return None
+        m, s = divmod(c, 6000)
+        return '%d:%02d,%02d' % (m, s // 100, s % 100)
     if form == 'short':           # natural text without trailing zeros ('2.8', '68')
         t = '%d.%02d' % (c // 100, c % 100)
         return t.rstrip('0').rstrip('.') if c % 10 == 0 else None
     raise ValueError(form)
+
+
+# spellings a function may refuse; when it does accept one, the answer is the one of the mark it spells
+OPTIONAL_FORMS = ('comma', 'hmscomma')
 
 
 def _job(job):
@@ -86,7 +97,7 @@ def _job(job):
             prev = [c, c] + cur
             segs.append(prev)
     q = {'sys': sys_, 'key': key, 'age': age or 0, 'manual': hand}
-    out = [{'k': 'seg', 'q': q, 'form': form, 'segs': [s[:3] for s in segs], 'n': n}]
+    out = [{'k': 'seg', 'q': q, 'form': form, 'segs': [s[:3] for s in segs], 'n': n, 'opt': form in OPTIONAL_FORMS}]
     if hand:
         out.append({'k': 'hand', 'q': q, 'form': form, 'segs': segs, 'n': 0})
     return out
@@ -131,12 +142,14 @@ def jobs_all(quick, rng):
                 lo, hi = 0, int(b + 500 / per)
                 forms = ['text', 'num'] if inside else ['text']
             around = [b] + ([t['l1'][i]] if t['kind'] == 'stav' else [])
+            if inside:
+                forms = forms + (['comma', 'hmscomma'] if t['kind'] == 'race' else ['comma'])
             for form in forms:
                 jobs.append(('tyrving', key, age, form, marks_for(lo, hi, cap if inside else 40, rng, around)))
     for key, t in sorted(J['qkids'].items()):
         hi = t['base'] + 110 * t['step'] if not t['run'] else t['base'] + 30 * t['step']
         lo = t['base'] - 10 * t['step'] if not t['run'] else t['base'] - 110 * t['step']
-        for form in (['text', 'num', 'hms', 'int'] if t['run'] else ['text', 'num', 'short']):
+        for form in (['text', 'num', 'hms', 'int', 'comma', 'hmscomma'] if t['run'] else ['text', 'num', 'short', 'comma']):
             jobs.append(('qkids', key, None, form, marks_for(lo, hi, cap * 2, rng, [t['base']])))
     jobs.append(('qkids', 'QKWL|HJ', None, 'text', [100, 200]))          # no such row
     jobs.append(('qkids', 'NOPE|75', None, 'text', [1000]))
